@@ -17,13 +17,29 @@ same key and different values different keys).  A fresh key *instance* is constr
 `combine` of every class is wrapped (record arguments, then call the library's implementation), which
 gives the oracle the number of combines and the exact list each one received.
 
+The class attributes are the DOCUMENTED ones (`DOC_DEFAULTS` below, copied from the docstrings of
+transactron/utils/dependencies.py): a generated class writes an attribute only when the drawn value differs
+from the documented default (a quarter of the classes writes all of them, as some user code does), so for
+most classes the value the library really has as its default is what is exercised, and the model never
+looks at the library's class attributes.  Only the library's own key classes (`LIB_KEYS`, used as they are
+with plain Python objects as dependencies) are taken with the attributes they declare.
+
+Key classes have 0-2 compared fields (int / str / bool / tuple / enum: equal field values name the same key,
+different values different keys), optionally one more field with compare=False (differs on every operation
+and must not matter), are built with a plain or a subscripted generic base (`ListKey[str]`).  The same
+dependency object is also added twice to one key and to several keys.
+
 Everything in an operation is an integer, so the generic shrinker can drop / zero fields:
-  {"who": module, "dm": manager, "op": 0 get_optional / 1 get / 2 add, "key": key class, "n": field value,
-   "val": tag of the added dependency}
+  {"who": module, "dm": manager, "op": 0 get_optional / 1 get / 2 add, "key": key class, "n": field value(s),
+   "val": tag of the added dependency, "nest": how DependencyContext is nested around the operation (counted only)}
 """
 
 from __future__ import annotations
 
+import dataclasses
+import enum
+import importlib
+import types
 from dataclasses import dataclass
 
 from ..comp import CompScenario
@@ -35,14 +51,96 @@ OPNAME = {OP_OPT: "get_optional_dependency", OP_GET: "get_dependency", OP_ADD: "
 
 _REC = None  # scenario whose keys are currently live (combine wrappers report to it)
 
+# What the documentation promises (docstring of DependencyKey: "lock_on_get: bool, default: True", "cache: bool,
+# default: True", "empty_valid: bool, default : False"; SimpleKey and user keys deriving from DependencyKey add
+# nothing).  A list key "returns all dependencies", which for a key nothing was added to is the empty list: getting
+# it is valid.  UnifierKey documents no default of its own for `cache`, so generated unifier classes always write it.
+DOC_DEFAULTS = {
+    "simple": {"lock": True, "cache": True, "empty_valid": False},
+    "tuple": {"lock": True, "cache": True, "empty_valid": False},
+    "list": {"lock": True, "cache": True, "empty_valid": True},
+    "unifier": {"lock": True, "cache": None, "empty_valid": False},
+}
+ATTR = {"lock": "lock_on_get", "cache": "cache", "empty_valid": "empty_valid"}
+
+# the library's own keys that work with plain Python objects: (module, kind).  Not TransactionsKey / DefinedMethodsKey /
+# ProvidedMethodsKey: the library itself adds to them whenever a Method or Transaction is made under the context
+# (MethodProduct.create of a unifier key does), which is not an operation of the history.
+LIB_KEYS = {
+    "TransactionManagerKey": ("transactron.core.keys", "simple"),
+    "HwMetricsListKey": ("transactron.lib.metrics", "list"),
+    "HwMetricsEnabledKey": ("transactron.lib.metrics", "simple"),
+    "LogKey": ("transactron.utils.logging", "list"),
+    "TicksKey": ("transactron.testing.tick_count", "simple"),
+}
+
+
+class _Col(enum.Enum):
+    RED = 0
+    GREEN = 1
+
+
+FTYPES = {"int": int, "str": str, "bool": bool, "tuple": tuple, "enum": _Col}
+
+
+def spec_fields(spec) -> list:
+    """Field types of the key dataclass; replay files written before fields existed have only `param`."""
+    f = spec.get("fields")
+    if f is None:
+        f = ["int"] if spec.get("param") else []
+    return f
+
+
+def ncmp(spec) -> int:
+    return sum(1 for t in spec_fields(spec) if t != "note")
+
+
+def field_value(ftype, bit, i):
+    if ftype == "int":
+        return bit
+    if ftype == "str":
+        return f"s{bit}"
+    if ftype == "bool":
+        return bool(bit)
+    if ftype == "tuple":
+        return (bit, "t")
+    if ftype == "enum":
+        return _Col(bit)
+    return f"note{i}"  # compare=False: differs on every operation, must not matter
+
+
+def key_args(spec, n, i):
+    """Constructor arguments of the key meant by `n`: compared field number j carries bit j of n."""
+    out, j = [], 0
+    for t in spec_fields(spec):
+        if t == "note":
+            out.append(field_value(t, 0, i))
+        else:
+            out.append(field_value(t, (n >> j) & 1, i))
+            j += 1
+    return out
+
 
 _CLS_CACHE: dict = {}
 
 
-def _make_key_class(idx: int, spec: dict):
-    """Key classes are pure functions of (index, spec); built once per worker process."""
-    sig = (idx, tuple(sorted((k, repr(v)) for k, v in spec.items())))
+def _make_key_classes(specs: list) -> list:
+    """Key classes are pure functions of (spec, how many equal specs precede it in the run); built once per
+    worker process.  Which spec of the run a class stands for is kept by the scenario (`idx_of`)."""
+    seen: dict = {}
+    out = []
+    for spec in specs:
+        sig = tuple(sorted((k, repr(v)) for k, v in spec.items()))
+        seen[sig] = seen.get(sig, 0) + 1
+        out.append(_make_key_class(seen[sig] - 1, sig, spec))
+    return out
+
+
+def _make_key_class(idx: int, sig: tuple, spec: dict):
+    sig = (idx, sig)
     if sig not in _CLS_CACHE:
+        if len(_CLS_CACHE) > 4000:
+            _CLS_CACHE.clear()
         _CLS_CACHE[sig] = _build_key_class(idx, spec)
     return _CLS_CACHE[sig]
 
@@ -52,11 +150,19 @@ def _build_key_class(idx: int, spec: dict):
     from transactron.lib.dependencies import UnifierKey
     from transactron.lib.transformers import MethodProduct
 
+    if spec.get("lib"):
+        mod, _kind = LIB_KEYS[spec["lib"]]
+        return getattr(importlib.import_module(mod), spec["lib"])  # used as it is: no wrapper, no override
+
     kind = spec["kind"]
-    ns: dict = {"_spec_idx": idx}
+    ns: dict = {}
     ann: dict = {}
-    if spec["param"]:
-        ann["n"] = int
+    for j, t in enumerate(spec_fields(spec)):
+        if t == "note":
+            ann[f"f{j}"] = str
+            ns[f"f{j}"] = dataclasses.field(default="", compare=False)
+        else:
+            ann[f"f{j}"] = FTYPES[t]
     ns["__annotations__"] = ann
 
     if kind == "simple":
@@ -78,13 +184,12 @@ def _build_key_class(idx: int, spec: dict):
             return _base.combine(self, data)
     ns["combine"] = combine
 
-    # override only what differs from the class defaults, as user code does
-    if spec["lock"] != base.lock_on_get:
-        ns["lock_on_get"] = spec["lock"]
-    if spec["cache"] != base.cache:
-        ns["cache"] = spec["cache"]
-    if spec["empty_valid"] != base.empty_valid:
-        ns["empty_valid"] = spec["empty_valid"]
+    # Write only what differs from the DOCUMENTED defaults, as user code does (explicit: write everything).  What
+    # the library's classes currently carry is deliberately not consulted.
+    doc = DOC_DEFAULTS[kind]
+    for a in ("lock", "cache", "empty_valid"):
+        if spec.get("explicit") or doc[a] is None or spec[a] != doc[a]:
+            ns[ATTR[a]] = spec[a]
     if kind == "simple" and spec["empty_valid"]:
         ns["default_value"] = spec["default"]
 
@@ -96,9 +201,22 @@ def _build_key_class(idx: int, spec: dict):
             return u
 
         cls = type(base)(name, (base,), ns, unifier=unifier)
+    elif spec.get("generic"):
+        # the way the library writes its own keys: class K(ListKey[T])
+        gbase = base[str, tuple] if base is DependencyKey else base[str]
+        cls = types.new_class(name, (gbase,), {}, lambda body: body.update(ns))
     else:
         cls = type(base)(name, (base,), ns)
     return dataclass(frozen=True)(cls)
+
+
+def inherited(spec) -> list:
+    """Attributes the generated class leaves to the library's defaults."""
+    if spec.get("lib"):
+        return []
+    doc = DOC_DEFAULTS[spec["kind"]]
+    return [a for a in ("lock", "cache", "empty_valid")
+            if not (spec.get("explicit") or doc[a] is None or spec[a] != doc[a])]
 
 
 class Scen(CompScenario):
@@ -110,8 +228,21 @@ class Scen(CompScenario):
         from transactron.utils.dependencies import DependencyManager
 
         _REC = self
-        self.specs = cfg["keys"]
-        self.classes = [_make_key_class(i, s) for i, s in enumerate(self.specs)]
+        self.classes = _make_key_classes(cfg["keys"])
+        self.idx_of = {cls: i for i, cls in enumerate(self.classes)}
+        self.specs = []
+        for s, cls in zip(cfg["keys"], self.classes):
+            if s.get("lib"):
+                # the library's own key: taken with the attributes it declares (they are the key's documented
+                # parameters); which defaults the base classes must have is judged on the generated classes
+                s = dict(s, kind=LIB_KEYS[s["lib"]][1], lock=bool(cls.lock_on_get), cache=bool(cls.cache),
+                         empty_valid=bool(cls.empty_valid), default=getattr(cls, "default_value", None),
+                         param=False, fields=[])
+            self.specs.append(s)
+        self.inh = [inherited(s) for s in self.specs]
+        self.nbits = [ncmp(s) for s in self.specs]
+        self.decoy = DependencyManager()  # never operated on: only entered as a context (nesting)
+        self.cur_n = 0
         self.ndm = cfg["managers"]
         self.dms = [DependencyManager() for _ in range(self.ndm)]
         # model, per manager: deps[key] = list of tags, locked set, cached[key] = canonical value
@@ -139,7 +270,9 @@ class Scen(CompScenario):
 
                 self.methods[tag] = Method(name=f"dep{tag}", i=[("x", 4)], o=[("y", 4)])
             return self.methods[tag]
-        return f"v{tag}"
+        if tag not in self.objs:
+            self.objs[tag] = f"v{tag}"  # one object per tag: a repeated tag adds the very same object again
+        return self.objs[tag]
 
     def tag_of(self, spec, obj):
         if spec["kind"] == "unifier":
@@ -185,8 +318,9 @@ class Scen(CompScenario):
 
     # ---- wrappers' callbacks --------------------------------------------------------------
     def note_combine(self, key, data):
-        spec = self.specs[key._spec_idx]
-        self.combines.append(((key._spec_idx, getattr(key, "n", 0)), [self.tag_of(spec, v) for v in data]))
+        ki = self.idx_of[type(key)]
+        spec = self.specs[ki]
+        self.combines.append(((ki, self.cur_n), [self.tag_of(spec, v) for v in data]))
 
     def note_unifier(self, u, methods):
         spec = next(s for s in self.specs if s["kind"] == "unifier")
@@ -204,9 +338,9 @@ class Scen(CompScenario):
             w = live[rng.randrange(len(live))] if mode != "sequential" else live[0]
             if mode == "bursty":
                 self.burst = [w, rng.randint(1, 6)]
-        op, key, n, val, dm = scripts[w][self.ptr[w]]
+        op, key, n, val, dm, *rest = scripts[w][self.ptr[w]]
         self.ptr[w] += 1
-        return {"who": w, "dm": dm, "op": op, "key": key, "n": n, "val": val}
+        return {"who": w, "dm": dm, "op": op, "key": key, "n": n, "val": val, "nest": rest[0] if rest else 0}
 
     # ---- one operation on the real manager and on the model --------------------------------
     def apply(self, i, op):
@@ -214,13 +348,15 @@ class Scen(CompScenario):
 
         ki = op.get("key", 0) % len(self.specs)
         spec = self.specs[ki]
-        n = op.get("n", 0) if spec["param"] else 0
+        n = op.get("n", 0) % (1 << self.nbits[ki])  # bit j = value of compared field j; no compared field: one key
+        self.cur_n = n
+        nest = op.get("nest", 0) % 3
         d = op.get("dm", 0) % self.ndm
         opc = op.get("op", 0) % 3
         tag = op.get("val", 0)
         kid = (ki, n)
         cls = self.classes[ki]
-        key = cls(n) if spec["param"] else cls()  # a fresh, equal instance every time
+        key = cls(*key_args(spec, n, i))  # a fresh, equal instance every time
         dm = self.dms[d]
         deps = self.deps[d].setdefault(kid, [])
         locked, cached, maybe = self.locked[d], self.cached[d], self.maybe_locked[d]
@@ -263,14 +399,37 @@ class Scen(CompScenario):
 
         # -- real -----------------------------------------------------------------------------
         self.combines = []
+        via_context = False
+        if nest:
+            # DependencyContext is not part of the statement: what it resolves to is only counted, and the
+            # operation goes to the context's manager only when that is the intended one
+            try:
+                with DependencyContext(self.decoy if nest == 1 else dm):
+                    with DependencyContext(dm if nest == 1 else self.decoy):
+                        inner = DependencyContext.get()
+                    outer = DependencyContext.get()
+                want_io = (dm, self.decoy) if nest == 1 else (self.decoy, dm)
+                self.hit("context_nested_shadow_and_restore" if (inner, outer) == want_io
+                         else "context_nested_unexpected")
+            except Exception:
+                self.hit("context_nested_raised")
         try:
             with DependencyContext(dm):
+                tgt = dm
+                if nest:
+                    try:
+                        via_context = DependencyContext.get() is dm
+                    except Exception:
+                        via_context = False
+                    if via_context:
+                        tgt = DependencyContext.get()
+                    self.hit("op_through_context" if via_context else "context_resolved_other_manager")
                 if opc == OP_ADD:
-                    r = dm.add_dependency(key, self.value(spec, tag))
+                    r = tgt.add_dependency(key, self.value(spec, tag))
                 elif opc == OP_GET:
-                    r = dm.get_dependency(key)
+                    r = tgt.get_dependency(key)
                 else:
-                    r = dm.get_optional_dependency(key)
+                    r = tgt.get_optional_dependency(key)
             got = "ok:" + repr(self.canon(spec, r) if opc != OP_ADD else r)
         except Violation:
             raise
@@ -283,7 +442,8 @@ class Scen(CompScenario):
         what = f"{OPNAME[opc]}({self.describe(spec, n)}{', v%d' % tag if opc == OP_ADD else ''}) on manager {d}"
         state = f"[{len(deps)} dependencies: {deps}, {'locked' if was_locked else 'unlocked'}, " \
                 f"{'cached' if had_cache else 'no cache'}]"
-        info = dict(op=OPNAME[opc], key_kind=spec["kind"], lock=spec["lock"], cache=spec["cache"])
+        info = dict(op=OPNAME[opc], key_kind=spec["kind"], lock=spec["lock"], cache=spec["cache"],
+                    lib=spec.get("lib"), inherited=self.inh[ki])
         if want is None:
             self.expect(got in ("raises", "ok:None"), "add-refused-or-failed",
                         f"{what} {state}: library {got}", **info)
@@ -297,8 +457,17 @@ class Scen(CompScenario):
             else:
                 k = "wrong-value"
             self.expect(False, k, f"{what} {state}: library {got}, documented behaviour {want}", **info)
-        if self.combines != exp_combines:
-            self.hit("combine_calls_differ")  # how often combine runs is not stated; staleness shows in the value
+        if spec.get("lib"):
+            pass  # no combine wrapper on the library's own classes
+        elif had_cache and opc != OP_ADD and self.combines:
+            # "cached results": a key that caches (documented: "result of the combine method is cached and subsequent
+            # calls to get_dependency will return the value in the cache") whose cache is valid -- filled by an
+            # earlier successful read, no add since -- answers from the cache
+            self.expect(False, "cached-result-not-reused",
+                        f"{what} {state}: the key caches and nothing was added since the last read, yet combine "
+                        f"ran again on {self.combines[0][1]}", **info)
+        elif self.combines != exp_combines:
+            self.hit("combine_calls_differ")  # otherwise how often combine runs is not stated
 
         # -- step the model with what the library did, count what fired ---------------------------
         want = want_full
@@ -306,6 +475,8 @@ class Scen(CompScenario):
             if got == "raises":
                 if was_locked:
                     self.hit("add_refused_locked")
+                    if "lock" in self.inh[ki]:
+                        self.hit("inherited_lock_default_refused_add")
                 if was_maybe and not was_locked:
                     self.hit("add_refused_after_failed_read")
                 elif want is None:
@@ -314,6 +485,10 @@ class Scen(CompScenario):
                 self.hit("add_ok")
                 if was_maybe:
                     self.hit("add_accepted_after_failed_read")
+                if tag in deps:
+                    self.hit("same_object_added_again_to_key")
+                if any(tag in dl for k2, dl in self.deps[d].items() if k2 != kid):
+                    self.hit("same_object_in_two_keys")
                 deps.append(tag)
                 if had_cache:
                     self.hit("cache_invalidated_by_add")
@@ -338,6 +513,8 @@ class Scen(CompScenario):
                     self.hit("simple_default" if nd == 0 else "simple_single")
                 elif k in ("list", "tuple"):
                     self.hit("list_empty" if nd == 0 else "list_single" if nd == 1 else "list_many")
+                    if len(set(deps)) < nd:
+                        self.hit("list_with_repeated_object_returned")
                 else:
                     self.hit("unifier_direct" if nd == 1 else "unifier_unified")
                     if had_cache and nd > 1:
@@ -345,10 +522,30 @@ class Scen(CompScenario):
                 if self.cfg["managers"] > 1 and any(self.deps[o].get(kid) and self.deps[o].get(kid) != deps
                                                     for o in range(self.ndm) if o != d):
                     self.hit("managers_differ_on_key")
-                if spec["param"] and self.deps[d].get((ki, 1 - n)) not in (None, deps):
-                    self.hit("param_instances_differ")
+                for j in range(self.nbits[ki]):
+                    if self.deps[d].get((ki, n ^ (1 << j))) not in (None, deps):
+                        self.hit("param_instances_differ")
+                        if j:
+                            self.hit("second_field_distinguishes_keys")
+                        break
+                fl = spec_fields(spec)
+                for t in fl:
+                    if t != "int":
+                        self.hit("field_" + t)
+                if spec.get("lib"):
+                    self.hit("library_key_read")
+                    self.hit("lib_" + spec["lib"])
+                if spec.get("generic"):
+                    self.hit("generic_base_key_read")
+                inh = self.inh[ki]
+                if "cache" in inh and spec["cache"] and had_cache:
+                    self.hit("inherited_cache_default_hit")
+                if "empty_valid" in inh and nd == 0:
+                    self.hit("inherited_empty_valid_default_used")
             if not was_locked and spec["lock"]:
                 self.hit("locked_by_read")
+            if "empty_valid" in self.inh[ki] and nd == 0 and not spec["empty_valid"]:
+                self.hit("inherited_empty_invalid_default_used")
             self.last_get = (d, kid)
         if opc == OP_ADD:
             self.last_get = None
@@ -374,10 +571,13 @@ class Scen(CompScenario):
 
     def describe(self, spec, n):
         s = f"{spec['kind']}[lock={int(spec['lock'])},cache={int(spec['cache'])},empty_valid={int(spec['empty_valid'])}]"
-        return s + (f"(n={n})" if spec["param"] else "()")
+        if spec.get("lib"):
+            s = spec["lib"] + ":" + s
+        fl = spec_fields(spec)
+        return s + "(" + ", ".join(f"{t}={v!r}" for t, v in zip(fl, key_args(spec, n, 0))) + ")"
 
 
-def _gen_spec(rng, kind):
+def _gen_spec(rng, kind, rich=True):
     spec = {"kind": kind, "lock": rng.random() < 0.55, "cache": rng.random() < 0.6,
             "empty_valid": rng.random() < 0.5, "param": rng.random() < 0.3, "default": None}
     if kind == "list" and rng.random() < 0.6:
@@ -387,7 +587,27 @@ def _gen_spec(rng, kind):
     if kind == "unifier":
         spec["empty_valid"] = False  # MethodProduct needs at least one target
         spec["cache"] = rng.random() < 0.5  # class default is off
+    # fields of the key dataclass: compared ones carry one bit of the operation's `n` each
+    r = rng.random()
+    types_ = ["int", "int", "str", "bool", "tuple", "enum"]
+    fields = [] if r < 0.5 else [rng.choice(types_)] if r < 0.8 else [rng.choice(types_), rng.choice(types_)]
+    if rng.random() < 0.15:
+        fields.append("note")
+    generic = kind != "unifier" and rng.random() < 0.3
+    if not rich:  # most runs: plain classes (no field or one int field), which the class cache serves
+        fields = ["int"] if fields and fields[0] != "note" and r >= 0.7 else []
+        generic = False
+    spec["fields"] = fields
+    spec["param"] = any(t != "note" for t in fields)
+    # a quarter of the classes writes all attributes; the others leave documented defaults to the library
+    spec["explicit"] = rng.random() < 0.25
+    spec["generic"] = generic
     return spec
+
+
+def _lib_spec(name):
+    return {"kind": LIB_KEYS[name][1], "lib": name, "lock": None, "cache": None, "empty_valid": None,
+            "default": None, "param": False, "fields": []}
 
 
 class Prop(PropBase):
@@ -397,18 +617,30 @@ class Prop(PropBase):
         "thorough": {"runs": 900000, "selftest_runs": 32},
     }
     rule = ("one run = 3-6 key classes (simple / list / custom-combine / unifier; lock_on_get, cache, empty_valid, "
-            "default_value, field-parameterised or not, drawn per class), 1-2 managers, 2-4 modules with scripts of "
-            "add / get / get_optional (provider, consumer, own-then-read, read-then-add, repeated-get styles), "
+            "default_value drawn per class and written in the class only where they differ from the documented "
+            "defaults (a quarter of the classes writes all); no field or one int field, in 35% of the runs 0-2 compared "
+            "fields of type int / str / bool / tuple / enum, optionally a compare=False field, plain or subscripted "
+            "generic base), in 30% of the runs one of the "
+            "library's own key classes, 1-2 managers, 2-4 modules with scripts of "
+            "add / get / get_optional (provider, consumer, own-then-read, read-then-add, repeated-get styles; 16% of "
+            "the adds repeat an object already added to this or another key), "
             "interleaved by the seed (random, bursty or sequential); one evaluation = one run of 20-90 operations, "
-            "each compared with the reference model (value, or that it raised); "
+            "each compared with the reference model (value, or that it raised; a caching key with a valid cache must "
+            "not combine again); "
             "distinct = distinct (key kind, flags, number of dependencies capped at 3, locked, cache valid, operation); "
             "non-trivial = a read, or an add to a locked or cached key")
     expected_cov = ["add_ok", "add_refused_locked", "add_refused_after_failed_read", "locked_by_read",
                     "get_missing_keyerror", "opt_none", "simple_default", "simple_single", "simple_multi_runtimeerror",
                     "list_empty", "list_single", "list_many", "cache_hit", "cache_invalidated_by_add",
                     "nocache_recombine", "unifier_direct", "unifier_unified", "unifier_cached",
-                    "managers_differ_on_key", "param_instances_differ"]
+                    "managers_differ_on_key", "param_instances_differ", "second_field_distinguishes_keys",
+                    "field_str", "field_bool", "field_tuple", "field_enum", "field_note", "generic_base_key_read",
+                    "library_key_read", "same_object_added_again_to_key", "same_object_in_two_keys",
+                    "list_with_repeated_object_returned", "inherited_lock_default_refused_add",
+                    "inherited_cache_default_hit", "inherited_empty_valid_default_used",
+                    "inherited_empty_invalid_default_used", "context_nested_shadow_and_restore", "op_through_context"]
     real = ["transactron.utils.dependencies.DependencyManager", "DependencyContext", "SimpleKey", "ListKey",
+            "library key classes: " + ", ".join(sorted(LIB_KEYS)),
             "DependencyKey", "transactron.lib.dependencies.UnifierKey", "transactron.lib.transformers.MethodProduct.create",
             "transactron.core.method.Method (as unifier-key dependency)"]
     stubs = ["module scripts and their interleaving", "reference model: dict of lists + lock set + cache validity",
@@ -420,23 +652,35 @@ class Prop(PropBase):
                    "whether a read that fails (KeyError / None / error) counts as a read for lock_on_get is left open: a "
                    "following add may raise or succeed, the model follows the library",
                    "a second add to a simple key may raise at add time or the error may come at get time; 'raises' is "
-                   "compared without the exception type; how often combine is called is only counted",
+                   "compared without the exception type; how often combine is called is only counted, except that a key "
+                   "which caches and whose cache is valid must answer from the cache (documented meaning of `cache`)",
+                   "the documented defaults (lock_on_get True, cache True, empty_valid False; a list key without "
+                   "dependencies returns the empty list) are written down in the check, not read from the library",
+                   "the library's own key classes are taken with the attributes they declare",
+                   "the same Method is not added twice to a unifier key (MethodProduct of a repeated method is another "
+                   "property's business); DependencyContext nesting is only counted",
                    "unifier keys keep empty_valid False (MethodProduct requires a non-empty target list)",
                    "no simulator involved: the order of operations is the whole schedule"]
 
     def gen_config(self, rng, tier, idx):
         nkeys = rng.randint(3, 6)
         kinds = ["simple", "list", "tuple", "unifier"]
-        keys = [_gen_spec(rng, kinds[i] if i < 4 and rng.random() < 0.8 else rng.choice(kinds[:3]))
+        rich = rng.random() < 0.35
+        keys = [_gen_spec(rng, kinds[i] if i < 4 and rng.random() < 0.8 else rng.choice(kinds[:3]), rich)
                 for i in range(nkeys)]
         if sum(1 for k in keys if k["kind"] == "unifier") > 1:  # one unifier class per run is enough
             first = True
             for k in keys:
                 if k["kind"] == "unifier":
                     if not first:
-                        k.update(_gen_spec(rng, "tuple"))
+                        k.update(_gen_spec(rng, "tuple", rich))
                     first = False
+        if rng.random() < 0.3:  # one of the library's own keys next to the generated ones
+            keys.insert(rng.randrange(len(keys) + 1), _lib_spec(rng.choice(sorted(LIB_KEYS))))
+            nkeys += 1
         managers = 2 if rng.random() < 0.25 else 1
+        nesting = rng.random() < 0.3
+        pool: list = []
         nmod = rng.randint(2, 4)
         scripts = []
         tagc = 0
@@ -447,7 +691,8 @@ class Prop(PropBase):
             s = []
             for j in range(ln):
                 key = rng.choice(mine) if rng.random() < 0.8 else rng.randrange(nkeys)
-                n = rng.randrange(2) if rng.random() < 0.5 else 0
+                n = rng.randrange(1 << ncmp(keys[key])) if rng.random() < 0.5 else 0
+                nest = rng.randrange(3) if nesting and rng.random() < 0.3 else 0
                 dm = rng.randrange(managers)
                 frac = j / ln
                 if style == "provider":
@@ -462,13 +707,23 @@ class Prop(PropBase):
                     p_add = 0.15
                     if s and rng.random() < 0.6:
                         key, n, dm = s[-1][1], s[-1][2], s[-1][4]
+                        n %= 1 << ncmp(keys[key])
                 else:
                     p_add = 0.5
                 if rng.random() < p_add:
-                    tagc += 1
-                    s.append([OP_ADD, key, n, w * 1000 + tagc, dm])
+                    again = [e[3] for e in s if e[0] == OP_ADD and (e[1], e[2], e[4]) == (key, n, dm)]
+                    r = rng.random()
+                    if keys[key]["kind"] == "unifier" or r >= 0.16 or not pool:
+                        tagc += 1
+                        val = w * 1000 + tagc  # a new object
+                        pool.append(val)
+                    elif r < 0.08 and again:
+                        val = rng.choice(again)  # the same object once more to the same key
+                    else:
+                        val = rng.choice(pool)  # an object some module adds (also) somewhere else
+                    s.append([OP_ADD, key, n, val, dm, nest])
                 else:
-                    s.append([OP_GET if rng.random() < 0.6 else OP_OPT, key, n, 0, dm])
+                    s.append([OP_GET if rng.random() < 0.6 else OP_OPT, key, n, 0, dm, nest])
             scripts.append(s)
         return {"keys": keys, "managers": managers, "scripts": scripts,
                 "interleave": rng.choice(["random", "bursty", "bursty", "sequential"]),
@@ -479,7 +734,7 @@ class Prop(PropBase):
 
     def features(self, cfg, viol):
         info = viol.get("info") or {}
-        return {"key_kind": info.get("key_kind")}
+        return {"key_kind": info.get("key_kind"), "lib_key": info.get("lib")}
 
     def cfg_signature(self, cfg):
         # coarse on purpose: the state signature already carries the key class configuration
@@ -490,6 +745,25 @@ class Prop(PropBase):
             c = dict(cfg)
             c["managers"] = 1
             yield c
+        # plainer key classes (fewer fields, plain base); `explicit` is left alone: it decides whose default is used
+        for i, k in enumerate(cfg["keys"]):
+            if k.get("lib"):
+                continue
+            fl = spec_fields(k)
+            cands = []
+            if "note" in fl:
+                cands.append(dict(k, fields=[t for t in fl if t != "note"]))
+            if ncmp(k) > 1:
+                cands.append(dict(k, fields=fl[:1]))
+            if ncmp(k) == 1 and fl != ["int"]:
+                cands.append(dict(k, fields=["int"]))
+            if k.get("generic"):
+                cands.append(dict(k, generic=False))
+            for nk in cands:
+                nk["param"] = any(t != "note" for t in nk["fields"])
+                c = dict(cfg)
+                c["keys"] = [nk if j == i else x for j, x in enumerate(cfg["keys"])]
+                yield c
 
 
 PROP = Prop()
